@@ -436,7 +436,9 @@ func (s *sfSim) fileV(ver SSVersion, n int, ct pb.CompressionType, zero bool) {
 	for _, o := range []int{0, 3, 7, 8, 9, 8 + hsz/2, 8 + hsz - 1, 8 + hsz, 8 + hsz + 3, 8 + hsz + 4, 600, 1023,
 		1024, 1025, 1024 + 15, 1024 + 16, len(data) - 1, len(data) - 7, len(data) - 8, len(data) - 9, len(data) - 16,
 		len(data) - 17, len(data) - 20, len(data) - 21, 1024 + 2*1024*1024 - 1, 1024 + 2*1024*1024, 1024 + 2*1024*1024 + 3,
-		1024 + 2*1024*1024 + 4, 1024 + 2*1024*1024 + 5} {
+		1024 + 2*1024*1024 + 4, 1024 + 2*1024*1024 + 5,
+		// inside the second, third and fourth block of the stream (the validator is also handed several blocks at once)
+		1024 + (2*1024*1024 + 4) + 100, 1024 + 2*(2*1024*1024+4) + 100, 1024 + 3*(2*1024*1024+4) + 100} {
 		if o >= 0 && o < len(data) {
 			offs[o] = true
 		}
@@ -472,6 +474,10 @@ func (s *sfSim) fileV(ver SSVersion, n int, ct pb.CompressionType, zero bool) {
 			p.Res = "diff"
 		}
 		if validate(d, 1+s.rng.Intn(len(d))) {
+			p.VRes = "accept"
+		}
+		if len(d) > 4*1024*1024 && (validate(d, len(d)) || validate(d, 4*1024*1024+4096) || validate(d, 6*1024*1024+8192)) {
+			// several blocks handed to the validator in one call (the whole image; two blocks and a bit)
 			p.VRes = "accept"
 		}
 		ev.Flips = append(ev.Flips, p)
@@ -615,6 +621,12 @@ func TestVerifSfsim(t *testing.T) {
 			cnt["File"]++
 			if big > 0 {
 				s.file(2*bs+1+s.rng.Intn(bs), []pb.CompressionType{pb.NoCompression, pb.Snappy}[tid%2])
+				cnt["File"]++
+			}
+			if big > 0 && tid%4 == 1 {
+				// five blocks: a validator that is handed the whole image (or three blocks at a time) has to
+				// check every one of them
+				s.file(4*bs+1+s.rng.Intn(bs), pb.NoCompression)
 				cnt["File"]++
 			}
 			s.oneWrite = false
